@@ -10,7 +10,7 @@ L1_NOTE = "Seam L1: the real leptos_i18n_parser::parse_locales run on project di
 CLAIMED = {
     "C01": (
         "bounded exhaustive enumeration of value forests executed on the real parser (L1) and through generated crates (L3), compared with a reference renderer",
-        "Every value forest over Text/Var/Comp up to the node bound, every whitespace combination inside tags and variables, literal segments made of white space only, the value kinds under every inherits map of a four-locale set declared in every order, every payload pair next to every delimiter, all literal-type pairs, in three containers (top level, nested subkeys, namespaces) is parsed by the real parse_locales and its tree evaluated the way generated code reads it; the result must equal the reference rendering of the AST the files were generated from.",
+        "Every value forest over Text/Var/Comp up to the node bound, every whitespace combination inside tags and variables, literal segments made of white space only, the value kinds (incl. references to a value that holds a reference) under every inherits map of a four-locale set declared in every order, every payload pair next to every delimiter, all literal-type pairs, in three containers (top level, nested subkeys, namespaces) is parsed by the real parse_locales and its tree evaluated the way generated code reads it; the result must equal the reference rendering of the AST the files were generated from.",
         L1_NOTE + " Text alphabet excludes lone '<', '{{', '$t(' (no documented escape).",
         "DESIGN.md §3 C01",
     ),
@@ -22,13 +22,13 @@ CLAIMED = {
     ),
     "C04": (
         "exhaustive enumeration of range declarations x counts (all 256 for i8/u8) on the real loader (L1), in generated match arms of probe crates (L3) and through the real code generator (L2), against an independent spec parser + Rust comparison semantics",
-        "Every 1- and 2-branch (thorough: 3-branch) declaration over the spec alphabet for i8/u8 is evaluated for all 256 counts from the parsed Range<T> structures and selected at parse time through $t(r,{count:n}); wider integer types and floats are covered on boundary neighbourhoods and extremes; declarations in which two branches share one value; three- and four-level reference chains in which a middle key renames the count and outer keys pass an unrelated `count` must keep the range on its renamed count; declarations the statement rejects must be errors, a literal count no branch contains must be an error - never a panic or a wrong branch.",
+        "Every 1- and 2-branch (thorough: 3-branch) declaration over the spec alphabet for i8/u8 is evaluated for all 256 counts from the parsed Range<T> structures and selected at parse time through $t(r,{count:n}); wider integer types and floats are covered on boundary neighbourhoods and extremes; declarations in which two branches share one value; float ranges with counts written as JSON integers (negative ones too); three- and four-level reference chains in which a middle key renames the count and outer keys pass an unrelated `count` must keep the range on its renamed count; declarations the statement rejects must be errors, a literal count no branch contains must be an error - never a panic or a wrong branch.",
         L1_NOTE + " Rust's FromStr/PartialOrd define what bounds mean. Empty/inverted ranges may be rejected or accepted.",
         "DESIGN.md §3 C04",
     ),
     "C05": (
         "exhaustive enumeration of plural-form subsets x rule type x locales x counts 0..=200 on the real loader (L1) and in generated probe crates (L3) against direct ICU4X calls",
-        "All 31 subsets of {zero..many}+other, cardinal and ordinal, for a locale set spanning the CLDR category patterns: merged trees evaluated for counts 0..=200 and large operands, parse-time selection for each such count and decimal operands, UnusedForm diagnostics as an exact multiset, and the error side (cardinal+ordinal under one key, collision with a plain key - also one that is itself named like a form (lone k_two, k_one+k_two) -, forms without _other).",
+        "All 31 subsets of {zero..many}+other, cardinal and ordinal, for a locale set spanning the CLDR category patterns: merged trees evaluated for counts 0..=200 and large operands, parse-time selection for each such count and decimal operands, UnusedForm diagnostics as an exact multiset, and the error side (cardinal+ordinal under one key, collision with a plain key - also one that is itself named like a form (lone k_two, k_one+k_two) -, forms without _other), and forms written as the empty string.",
         L1_NOTE,
         "DESIGN.md §3 C05",
     ),
@@ -46,25 +46,25 @@ CLAIMED = {
     ),
     "C08": (
         "exhaustive enumeration of per-locale value-kind tuples for one key on the real loader (L1) against a union-of-signatures model, plus compile probes (supplying exactly the union compiles, omitting any member does not) through the real proc-macro (L3)",
-        "Every 1-, 2- and 3-tuple of value kinds across locales (string, variables with and without formatters, components, three range types, plural, foreign keys renaming the count, fixing it (at an exact value, at the last value of a bounded branch) or passing an argument into a component / a plural form of the target, null, number, bool): the observed argument set (with count typing and formatter families) must be the union over locales after substitution, and count-typing conflicts must be the documented errors.",
+        "Every 1-, 2- and 3-tuple of value kinds across locales (string, variables with and without formatters, components, three range types, plural, foreign keys renaming the count, fixing it (at an exact value, at the last value of a bounded branch) or passing an argument into a component / a plural form of the target or an argument that is itself a component, null, number, bool): the observed argument set (with count typing and formatter families) must be the union over locales after substitution, and count-typing conflicts must be the documented errors.",
         L1_NOTE + " L3: one probe binary per omitted member, judged by `cargo check` diagnostics naming the probe file.",
         "DESIGN.md §3 C08",
     ),
     "C09": (
         "exhaustive enumeration of token strings (<= 5/6 tokens), range specs, JSON shapes, foreign-key forms, inherits loops, file contents and nesting depths executed on the real loader (L1), the real code generator load_locales() (L2) and the build helper (vbuild) under catch_unwind + watchdog + subprocess isolation",
-        "All strings over a 21-token adversarial alphabet up to the bound go through ParsedValue::new and, for shorter ones, through real files and the whole loader - at a plain key and, for the reference forms and short strings, in 9 positions (plural _one / _other / middle form, ordinal _other, range branch and fallback, subkey, non-default locale, reference argument), without and with namespaces; plus all range-count token strings, JSON number classes (as range bounds and as literal counts handed to a range and to a plural), small JSON shapes in value position, foreign-key target/argument/position products, whole-file contents, missing project pieces and 1..2000 deep/long constructs in subprocesses: every outcome must be Ok or a non-empty Err - no panic, crash, or hang.",
+        "All strings over a 21-token adversarial alphabet up to the bound, one string per character-class edge (C0 / DEL / C1 controls, separators, BMP and astral edges) in six contexts, go through ParsedValue::new and, for shorter ones, through real files and the whole loader - at a plain key and, for the reference forms and short strings, in 9 positions (plural _one / _other / middle form, ordinal _other, range branch and fallback, subkey, non-default locale, reference argument), without and with namespaces; plus all range-count token strings, JSON number classes (as range bounds and as literal counts handed to a range and to a plural), small JSON shapes in value position, foreign-key target/argument/position products, whole-file contents, missing project pieces and 1..2000 deep/long constructs in subprocesses: every outcome must be Ok or a non-empty Err - no panic, crash, or hang.",
         L1_NOTE + " Depth bound 2000 on an 8 MiB stack.",
         "DESIGN.md §3 C09",
     ),
     "C10": (
         "exhaustive permutation of key order (k<=4/5) over a project corpus, two fresh processes, and three front-end builds of the real loader compared by canonical dump (L1); generated token streams compared across permutations and processes (L2)",
-        "For every corpus project (reference chains, inherits maps, value forests, ranges of every small shape, plural groups, configurations) every permutation of the keys of its files (reversal/rotation for larger files), nested groups reversed and {count,value} fields flipped must give the identical canonical dump (keys, signatures, effective locales, string tables, diagnostics, rendered text or error); the dump must also be identical in two fresh processes and, reduced to format-independent content, across the JSON, JSON5 and YAML builds.",
+        "For every corpus project (reference chains, inherits maps, value forests, ranges of every small shape, plural groups, configurations) every permutation of the keys of its files (reversal/rotation for larger files), nested groups reversed and {count,value} fields flipped must give the identical canonical dump (keys, signatures, effective locales, string tables, diagnostics, rendered text or error); the dump must also be identical in two fresh processes and, reduced to format-independent content, across the JSON, JSON5 and YAML builds (YAML: also with some files carrying the other extension).",
         L1_NOTE + " Numeric literal type may differ between front-ends (stated in the property).",
         "DESIGN.md §3 C10",
     ),
     "C11": (
         "exhaustive sweep of every Unicode scalar value and nasty two-character strings through the real loader (L1), the generated code's table sizes and indices (L2, syn visitor), the build helper's written files (vbuild, strict JSON reader) and the tables embedded in server-rendered pages (L3), checking every literal index against the exported table",
-        "Every Unicode scalar as a one-character translation and all pairs over 14 hostile characters, in flat, nested-subkey, namespaced, defaulted and foreign-key-duplicated layouts: each Literal::String(s,i) must satisfy strings[i]==s with i in range, and the string count recorded in every (sub-)locale must equal the table length; plus every assignment of 3 shared strings / an interpolation / null to 2 keys in 3-4 locales (x inherits x namespaces) and, for the build helper, every sequence of <= 3 exports of 4 project variants into one output directory; (L3) the tables embedded in server-rendered pages (dynamic_load + ssr probe crates, every ordered subset of touched units incl. units with empty tables, eager and lazy reads) must decode to the tables the server function exports. The same invariants are checked on every project of every other L1 check.",
+        "Every Unicode scalar as a one-character translation and all pairs over 14 hostile characters, in flat, nested-subkey, namespaced, defaulted and foreign-key-duplicated layouts: each Literal::String(s,i) must satisfy strings[i]==s with i in range, and the string count recorded in every (sub-)locale must equal the table length; plus every assignment of 3 shared strings / an interpolation / null to 2 keys in 3-4 locales (x inherits x namespaces) and, for the build helper, every sequence of <= 3 exports of 4 project variants into one output directory; every assignment of 7 literal kinds to one key in 3 locales; (L3) the tables embedded in server-rendered pages (dynamic_load + ssr probe crates, every ordered subset of touched units incl. units with empty tables, eager and lazy reads) must decode to the tables the server function exports. The same invariants are checked on every project of every other L1 check.",
         L1_NOTE + " File written by the build helper / generated-code sizes: see engines vbuild / L2 in the evidence when present.",
         "DESIGN.md §3 C11",
     ),
@@ -94,7 +94,7 @@ CLAIMED = {
     ),
     "C14": (
         "explicit-state exploration of (URL, locale) under locale-switch sequences plus exhaustive single calls, on the real path functions (verif_hooks feature) and on a natively built <I18nRoute> (generate_routes / match_nested over a closed path universe, plain leptos_router as reference)",
-        "For 7 locale sets (names that are prefixes of each other and of path words), 6 base-path spellings and a route table with static / param / optional / splat / localized segments: get_locale_from_path on every short path - under the base, under near misses of it (segments glued, extended, missing; 2- and 3-segment bases) and elsewhere - against a whole-segment oracle, and a BFS over every sequence of <= 3 (thorough 4) locale switches from every page URL in every locale (with/without query, fragment, route table), each step calling the real get_new_path: only the prefix and the localized segments may change, A->B->A returns the original URL, the locale read back is the one switched to, and the real route objects match the URL before and after as the same route with the same parameters. The real <I18nRoute> (children written with i18n_path!) is built natively per locale set: its generate_routes() must be the N+1 families, the segment tables it stores (used for the switches above) the per-locale tables, and match_nested() on every path of <= 3-4 segments over locale names, localized words, glued / truncated / upper-cased names must read a locale only from a first segment equal to a locale name.",
+        "For 7 locale sets (names that are prefixes of each other and of path words), 6 base-path spellings and a route table with static / param / optional / splat / localized segments: get_locale_from_path on every short path (words in several letter cases) - under the base, under near misses of it (segments glued, extended, missing; 2- and 3-segment bases) and elsewhere - against a whole-segment oracle, and a BFS over every sequence of <= 3 (thorough 4) locale switches from every page URL in every locale (with/without query, fragment, route table), each step calling the real get_new_path: only the prefix and the localized segments may change, A->B->A returns the original URL, the locale read back is the one switched to, and the real route objects match the URL before and after as the same route with the same parameters. The real <I18nRoute> (children written with i18n_path!) is built natively per locale set: its generate_routes() must be the N+1 families, the segment tables it stores (used for the switches above) the per-locale tables, and match_nested() on every path of <= 3-4 segments over locale names, localized words, glued / truncated / upper-cased names must read a locale only from a first segment equal to a locale name.",
         "Seam RT via cargo feature verif_hooks (thin re-exports of the private functions; named in the property's hook_needed). The browser glue (effects, navigate, popstate, view_wrapper) needs web_sys and is modelled by the driver. Plain leptos_router (the same table with static segments in one locale's words) is the trusted reference for what a route table matches.",
         "DESIGN.md §3 C14",
     ),
@@ -106,7 +106,7 @@ CLAIMED = {
     ),
     "C02": (
         "exhaustive enumeration of accessor flavours x scoping prefixes x locales x counts over a project holding every key kind, executed in generated probe crates against the reference renderer",
-        "A project with one key of every kind at depth 1 and 3 in two namespaces and three locales (inheritance, explicit nulls, gaps) is compiled through the real proc-macro; every key is read through td/t/tu x view/string/display, through scope_locale!/scope_i18n! at every proper prefix (one step and chained) and use_i18n_scoped!, and the const accessor chain, with counts {0,1,2,5}, and t! / tu! views built under another locale and rendered after the context moved; the ranges of the project have overlapping branches (an exact value and an alternative list written after the bounds containing them: the view and the string back-ends generate their branch chains separately); every record must equal the reference rendering, hence all flavours agree; in a second project (en, bn, sv) keys carrying number formatters are read through all 9 flavours with positive / negative / zero / fractional / integer-typed values and must equal direct ICU4X calls.",
+        "A project with one key of every kind at depth 1 and 3 in two namespaces and three locales (inheritance, explicit nulls, gaps) is compiled through the real proc-macro; every key is read through td/t/tu x view/string/display, through scope_locale!/scope_i18n! at every proper prefix (one step and chained) and use_i18n_scoped!, and the const accessor chain, with counts {0,1,2,5}, t! / tu! views built under another locale and rendered after the context moved, and count-driven views whose count closure changes its value after the view closure was built / called once; the ranges of the project have overlapping branches (an exact value and an alternative list written after the bounds containing them: the view and the string back-ends generate their branch chains separately); every record must equal the reference rendering, hence all flavours agree; in a second project (en, bn, sv) keys carrying number formatters are read through all 9 flavours with positive / negative / zero / fractional / integer-typed values and must equal direct ICU4X calls.",
         "Seam L3: only documented macros inside the probe; context flavours run on a natively created I18nContext (ssr). Quick tier thins view flavours under scoping.",
         "DESIGN.md §3 C02",
     ),
@@ -118,7 +118,7 @@ CLAIMED = {
     ),
     "C17": (
         "exhaustive enumeration of hostile string contents x ordered subsets of touched translation units, rendered natively by probe crates built with dynamic_load+ssr, decoded by an independent HTML/JS literal reader",
-        "All 196 two-character strings over 14 hostile characters plus </script>, <!--, -->, quotes, backtick, newlines, U+2028/9 (alone and inside sentences) are the translations of two probe crates; <I18nContextProvider> is rendered to HTML for every ordered subset of touched (locale, namespace) units - read lazily (render-time closures), eagerly (while the provider's children are built, as t_string! in a component body) or mixed -, for units whose table is empty next to others in every order, for units read only below a nested <I18nSubContextProvider>, and for a context-driven render with a locale switch; every script element, cut as an HTML tokenizer cuts it, must be one valid assignment, and the decoded array of the last one (what the client finds) lists exactly the touched units, each with the table its server function exports.",
+        "All 196 two-character strings over 14 hostile characters plus </script>, <!--, -->, quotes, backtick, newlines, U+2028/9 (alone and inside sentences) are the translations of two probe crates; <I18nContextProvider> is rendered to HTML for every ordered subset of touched (locale, namespace) units - read lazily (render-time closures), eagerly (while the provider's children are built, as t_string! in a component body) or mixed -, for units whose table is empty next to others in every order, for units read only below a nested <I18nSubContextProvider>, for pages walked once with dry_resolve() before rendering, and for a context-driven render with a locale switch; every script element, cut as an HTML tokenizer cuts it, must be one valid assignment, and the decoded array of the last one (what the client finds) lists exactly the touched units, each with the table its server function exports.",
         "Seam L3 (dynamic_load + ssr), native rendering. The hydrate-side consumer needs a browser and is not executed.",
         "DESIGN.md §3 C17",
     ),
